@@ -73,7 +73,7 @@ def bign_ops(rng, tier, sch, f, klass_prefix):
         ops.append(Op(op + " " + " ".join(fields), "0" if same else ("502" if exp is None else exp), "%s:%s" % (klass_prefix, k)))
     add(f, "std")
     names = ["l", "p", "a", "b", "seed", "q", "yG"]
-    nflip = 3 if tier == "quick" else 24
+    nflip = (3 if l <= 128 else 1) if tier == "quick" else 24
     for i in range(1, 7):
         width = 8 if i == 4 else no
         bits = [0, 1, 8 * width - 1, 8 * width - 2] + [rng.randrange(8 * width) for _ in range(nflip)]
@@ -361,7 +361,7 @@ def dstu_base_point(rng, f):
             return E, Q
 
 
-def dstu_ops(rng, tier, W, f, prefix, heavy):
+def dstu_ops(rng, tier, W, f, prefix, heavy, light=False):
     ops = []
     pre = "W32 " if W == 32 else ""
     no = (int(f[0]) + 7) // 8
@@ -380,6 +380,15 @@ def dstu_ops(rng, tier, W, f, prefix, heavy):
     m = int(f[0])
     n, c = lev(f[6]), int(f[7])
     x, y = lev(f[8][: 2 * no]), lev(f[8][2 * no: 4 * no])
+    if light:
+        # large fields in the quick tier: the decisive alterations only (every op costs an irreducibility test of degree m)
+        for k, i, v in (("cofactor:+1", 7, str(c + 1)), ("cofactor:-1", 7, str(max(0, c - 1))), ("n:n+2", 6, hx(n + 2, 64)), ("n:2n", 6, hx(2 * n, 64)),
+                        ("base:y^1", 8, hx(x, no) + hx(y ^ 1, no) + "00" * (128 - 2 * no)), ("B=0", 5, "00" * 64),
+                        ("field:A", 4, str(1 - int(f[4])))):
+            g = list(f)
+            g[i] = v
+            add(g, k)
+        return ops
     for k, cc in (("+1", c + 1), ("-1", c - 1), ("0", 0), ("3", 3), ("1", 1), ("2", 2), ("4", 4), ("2^32+c", (1 << 32) + c)):
         if cc != c:
             g = list(f)
@@ -824,9 +833,9 @@ def find_gf2_poly(m, W):
 def ec2group_ops(rng, tier, W):
     ops = []
     pre = "W32 " if W == 32 else ""
-    ms = [W + 3, W + 9, W + 15, 2 * W - 1, 2 * W + 1, 2 * W + 7, 3 * W + 3, 163]
+    ms = [W + 3, W + 15, 2 * W - 1, 2 * W + 1, 163 if W == 64 else 3 * W + 3]
     if tier != "quick":
-        ms += [W + 5, W + 21, 3 * W - 1, 4 * W + 1, 233]
+        ms += [W + 5, W + 9, W + 21, 2 * W + 7, 3 * W - 1, 3 * W + 3, 4 * W + 1, 163, 233]
     for m in ms:
         pd, md = find_gf2_poly(m, W)
         if pd is None:
@@ -887,9 +896,10 @@ def generate(ctx, std, bels, lr_stb, lr_pfok):
         elif sch == "dstu":
             m = int(f[0])
             heavy = tier != "quick" or m <= 191
-            ops += dstu_ops(rng, tier, 64, f, prefix, heavy)
-            if m in (163, 233, 431) or tier != "quick":
-                ops += dstu_ops(rng, tier, 32, f, prefix + "/w32", heavy and m <= 191)
+            light = tier == "quick" and m > 191
+            ops += dstu_ops(rng, tier, 64, f, prefix, heavy, light)
+            if m in (163, 257) or tier != "quick":
+                ops += dstu_ops(rng, tier, 32, f, prefix + "/w32", heavy, light or tier == "quick")
         elif sch == "stb99":
             if tier != "quick" or name in ("test", "1.2.112.0.2.0.1176.2.3.3.1"):
                 ops += stb99_ops(rng, tier, f, prefix)
